@@ -247,9 +247,11 @@ def confirm_explog(pp, torch, c):
     tol = 0.99e-7 * scale
     if g == 'Sim3':
         # documented truncation of the sim3 series: Jl = sum_{k<=5} ad^k/(k+1)!  (remainder <= |ad|^6/5040 e^|ad|),
-        # Jl^-1 = I - ad/2 + ad^2/12 - ad^4/720  (next Bernoulli term ad^6/30240); |.| = max of the 1- and inf-norms
-        na = max(float(mp.norm(A, 'inf')), float(mp.norm(A, 1)))
-        g1 = float(sum(abs(v) for v in gz))
+        # Jl^-1 = I - ad/2 + ad^2/12 - ad^4/720  (next Bernoulli term ad^6/30240)
+        # |.| = spectral norm; the error of cotangent @ (series remainder) is bounded in every component by |cotangent|_2 |remainder|_2
+        import numpy as _np
+        na = float(_np.linalg.norm(_np.array([[float(A[i, j]) for j in range(A.cols)] for i in range(A.rows)]), 2)) * (1 + 1e-12)
+        g1 = math.sqrt(float(sum(v * v for v in gz)))
         if op == 'Exp':
             tol += 1.05 * g1 * na ** 6 / 5040.0 * math.exp(na)
         elif na < 3.0:
@@ -427,6 +429,29 @@ def run(ctx):
             mm['explained'] = True
             saved = m['x'] if m['op'] == 'Exp' else [float(v) for v in grp(pp, torch, m['g'], m['x'], rg=False).Log().tensor().tolist()]
             ctx.violation('grad-accuracy:%s:%s:%s' % (m['g'], m['op'], angle_regime(m['g'], saved)), why, m)
+    # search around an unexplained Exp / Log backward disagreement: the same family at mid-range arguments, where a wrong
+    # series coefficient exceeds both the round-off floor and the documented truncation bound
+    for (g, op) in sorted({(m['case']['g'], m['case']['op']) for m in ctx.mismatches if not m.get('explained') and m['case'].get('kind') == 'explog'}):
+        hit = None
+        for mag in (0.5, 0.25, 0.8, 0.12, 1.0, 0.35, 0.06, 0.6):
+            for _ in range(3):
+                xa = [rng.uniform(-1, 1) for _ in range(ADIM[g])]
+                nx = math.sqrt(sum(v * v for v in xa)) or 1.0
+                xa = [mag * v / nx for v in xa]
+                x = xa if op == 'Exp' else [float(v) for v in alg(pp, torch, g, xa, rg=False).Exp().tensor().tolist()]
+                cnd = dict(kind='explog', g=g, op=op, x=x, gz=[rng.uniform(-1, 1) for _ in range(GDIM[g] if op == 'Exp' else ADIM[g])], point='search')
+                why = confirm_explog(pp, torch, cnd)
+                if why:
+                    hit = (cnd, why)
+                    break
+            if hit:
+                break
+        if hit:
+            for m in ctx.mismatches:
+                if (m['case']['g'], m['case']['op']) == (g, op) and m['case'].get('kind') == 'explog':
+                    m['explained'] = True
+            saved = hit[0]['x'] if op == 'Exp' else [float(v) for v in grp(pp, torch, g, hit[0]['x'], rg=False).Log().tensor().tolist()]
+            ctx.violation('grad-accuracy:%s:%s:%s' % (g, op, angle_regime(g, saved)), hit[1], hit[0])
     ctx.traces = len(meta) + len(r['ok'])
     # ---------------------------------------------------------------- search: finite-difference oracle per (group, op) family
     fams = sorted({(m['case']['g'], m['case']['op']) for m in ctx.mismatches if not m.get('explained')})
